@@ -255,6 +255,12 @@ func main() {
 				if strings.HasPrefix(ev.Evidence, "@@HANG") {
 					rc.Kind = "selfdeadlock"
 					detail += "; reproduced: " + firstHang(ev.Evidence)
+				} else if strings.HasPrefix(ev.Evidence, "@@NOTATOMIC") {
+					rc.Kind = "relay"
+					detail += "; reproduced on a real relay: " + strings.SplitN(strings.TrimPrefix(ev.Evidence, "@@NOTATOMIC "), "\n", 2)[0]
+				} else if strings.HasPrefix(ev.Evidence, "@@FAULT") {
+					rc.Kind = "relay"
+					detail += "; reproduced on a real relay (a reader that pings during traffic): the process dies with " + firstLine(strings.TrimPrefix(ev.Evidence, "@@FAULT "))
 				} else if strings.HasPrefix(ev.Evidence, "@@CORRUPT") {
 					rc.Kind = "bigframes"
 					detail += "; reproduced on a real relay: " + strings.SplitN(strings.TrimPrefix(ev.Evidence, "@@CORRUPT "), "\n", 2)[0]
@@ -339,6 +345,10 @@ func clauseOf(d diag) string {
 	switch d.Kind {
 	case "double-acquire":
 		return "self-deadlock"
+	case "second-writer-on-connection":
+		return "second-writer-on-connection"
+	case "handler-not-all-or-nothing":
+		return "request-not-all-or-nothing"
 	case "buffer-shared-across-goroutines":
 		return "buffer-shared-across-goroutines"
 	case "write-after-publication":
@@ -371,7 +381,7 @@ func describe(d diag) string {
 		return fmt.Sprintf("releases %s without holding it (%s)", d.Lock, d.Pos)
 	case "return-while-holding", "end-of-function-while-holding":
 		return fmt.Sprintf("returns while still holding %s (%s)", d.Lock, d.Pos)
-	case "buffer-shared-across-goroutines":
+	case "buffer-shared-across-goroutines", "second-writer-on-connection", "handler-not-all-or-nothing":
 		return fmt.Sprintf("%s (%s)", d.Lock, d.Pos)
 	case "write-under-read-lock":
 		return fmt.Sprintf("writes guarded field %s while holding %s only for reading (%s)", d.Field, d.Lock, d.Pos)
@@ -490,6 +500,17 @@ func replay(res *lib.Result, rep *report, rc replayCase) {
 		res.Evaluations = 1
 		for try := int64(1); try <= 3; try++ {
 			out := runRelayChild(6, try)
+			for _, mk := range []string{"@@NOTATOMIC ", "@@CORRUPT "} {
+				if i := strings.Index(out, mk); i >= 0 {
+					res.Violate(lib.Violation{Clause: "request-not-all-or-nothing", Case: -1, Key: "replay",
+						Detail: "replayed: " + strings.SplitN(out[i+len(mk):], "\n", 2)[0], Replay: rc})
+					return
+				}
+			}
+			if txt := faultText(out); txt != "" {
+				res.Violate(lib.Violation{Clause: "process-faults", Case: -1, Key: "replay", Detail: "replayed: the relay process dies with " + firstLine(txt), Replay: rc})
+				return
+			}
 			if hit, text := raceOnGuarded(rep, out); hit {
 				res.Violate(lib.Violation{Clause: "unsynchronised-access", Case: -1, Key: "replay",
 					Detail: "replayed: full relay under 16 clients (race build) -> " + firstLine(text), Replay: rc})
